@@ -2,7 +2,7 @@
 
 What a *run* is.  A JSON-able `job` describes either a whole seeded EVQE solve (`kind="solve"`, the setup dict of
 `vlib.solverkit.build_evqe` with one worker thread) or one call of a random constructor (`kind` in "layer",
-"individual", "population", "jssp").  `run_job(job, ambient)` executes it on the implementation in the current
+"individual", "population", "jssp") or of a seeded optimisation function of mutation.py (`kind` "optimize").  `run_job(job, ambient)` executes it on the implementation in the current
 process and returns plain JSON data
 
     {"fp":  <canonical fingerprint of everything the call returned>,
@@ -276,6 +276,21 @@ def set_ambient(ambient: int):
     algorithm_globals.random_seed = 31 * ambient + 3
 
 
+def advance_ambient():
+    """Perturb the ambient generators by DRAWING from them, without seeding anything: whatever state the previous
+    call left behind (in particular qiskit's algorithm_globals generator and its recorded seed) stays in place.
+    Used for the immediate back-to-back repetition of a call: a call that only re-seeds a global generator when
+    the seed 'changed' continues from leftover state here."""
+    import random
+
+    import numpy as np
+    from qiskit_algorithms.utils import algorithm_globals
+
+    random.random()
+    np.random.random()
+    algorithm_globals.random.random()
+
+
 # =============================================================================================== jobs
 def _exc(e: BaseException) -> dict:
     return {"raise": type(e).__name__, "message": str(e)[:200]}
@@ -304,12 +319,9 @@ def _set_optimizer(solver, name: str):
     measured to be deterministic functions of their inputs with the exact fake primitives; scipy's COBYLA is not used)."""
     if name == "coordinate":
         return
-    from qiskit_algorithms.optimizers import NFT, SPSA
-
-    make = {"spsa": lambda: SPSA(maxiter=2, learning_rate=0.1, perturbation=0.1), "nft": lambda: NFT(maxiter=4)}[name]
     for op in solver.configuration.evolutionary_operators:
         if getattr(op, "optimizer", None) is not None:
-            op.optimizer = make()
+            op.optimizer = make_optimizer(name)
 
 
 def solve_setup(setup: dict) -> dict:
@@ -394,12 +406,42 @@ def run_constructor(job: dict) -> dict:
                 out["fp"] = canon_instance(random_job_shop_scheduling_instance(
                     instance_name=a["name"], n_jobs=a["n_jobs"], n_machines=a["n_machines"],
                     relative_op_amount=_plain_dist(a["rel"]), op_duration=_plain_dist(a["dur"]), random_seed=a["seed"]))
+            elif kind == "optimize":
+                out["fp"] = _run_optimize(a)
             else:
                 raise ValueError(f"unknown job kind {kind}")
         except Exception as e:
             out["fp"] = _exc(e)
     out["log"] = log.canonical()
     return out
+
+
+def make_optimizer(name: str):
+    from vlib import solverkit
+
+    if name == "coordinate":
+        return solverkit.CoordinateSearch(sweeps=1)
+    from qiskit_algorithms.optimizers import NFT, SPSA
+
+    return {"spsa": lambda: SPSA(maxiter=2, learning_rate=0.1, perturbation=0.1), "nft": lambda: NFT(maxiter=4)}[name]()
+
+
+def _run_optimize(a: dict):
+    """The two seeded optimisation functions of mutation.py called directly (the fifth 'constructor-like' function):
+    a = {"individual": plain individual, "layer": int | "all", "optimizer": name, "seed": int, "coeffs": [...]}.
+    Exact estimator, no transpilation; returns the new individual and the evaluation count."""
+    from vlib import solverkit
+    from queasars.circuit_evaluation.circuit_evaluation import OperatorCircuitEvaluator
+    from queasars.minimum_eigensolvers.evqe.evolutionary_algorithm import mutation
+
+    ind = ev.impl_individual(a["individual"])
+    evaluator = OperatorCircuitEvaluator(estimator=solverkit.exact_estimator(), estimator_precision=0.0,
+                                         operator=solverkit._hamiltonian(a["individual"]["n"], a["coeffs"]))
+    if a["layer"] == "all":
+        new, n = mutation.optimize_all_parameters_of_individual(individual=ind, evaluator=evaluator, optimizer=make_optimizer(a["optimizer"]), random_seed=a["seed"])
+    else:
+        new, n = mutation.optimize_layer_of_individual(individual=ind, layer_id=a["layer"], evaluator=evaluator, optimizer=make_optimizer(a["optimizer"]), random_seed=a["seed"])
+    return {"individual": canon_individual(new), "evaluations": num(n)}
 
 
 def _ambient_snapshot():
@@ -411,10 +453,14 @@ def _ambient_snapshot():
     return {"random": hash(random.getstate()), "numpy.random": hash((st[0], st[1].tobytes(), st[2], st[3], st[4]))}
 
 
-def run_job(job: dict, ambient: int) -> dict:
-    """Run one job under the ambient state number `ambient`.  Besides fp and log the result says which ambient
-    generators were advanced during the call (information only; not compared between runs)."""
-    set_ambient(ambient)
+def run_job(job: dict, ambient: int | None) -> dict:
+    """Run one job under the ambient state number `ambient` (None: keep whatever state the previous call left and
+    only advance the ambient generators by one draw each - the back-to-back repetition).  Besides fp and log the
+    result says which ambient generators were advanced during the call (information only; not compared)."""
+    if ambient is None:
+        advance_ambient()
+    else:
+        set_ambient(ambient)
     before = _ambient_snapshot()
     out = run_solve(job) if job["kind"] == "solve" else run_constructor(job)
     after = _ambient_snapshot()
